@@ -178,20 +178,8 @@ func init() {
 					if f == nil {
 						return "", nil
 					}
-					c := f.Ctx()
-					var seq []string
-					ast.Inspect(f.Body(), func(x ast.Node) bool {
-						as, ok := x.(*ast.AssignStmt)
-						if !ok || len(as.Rhs) != 1 {
-							return true
-						}
-						call, ok := as.Rhs[0].(*ast.CallExpr)
-						if ok && core.IsBuiltinCall(c.Info, call, "append") && len(call.Args) == 2 {
-							seq = append(seq, core.CanonExpr(c, call.Args[1]))
-						}
-						return true
-					})
-					return strings.Join(seq, " > "), f
+					// layerOrder also understands a loop over a literal and a helper shared by both callers
+					return strings.Join(layerOrder(f), " > "), f
 				}
 				a, fa := layers(ldb + "List")
 				b, fb := layers(ldb + "PrefixCount")
